@@ -491,7 +491,11 @@ fn read_olde_ecl(
         )).ignore();
     }
     if matches!(format.timeline_array_kind(), TimelineArrayKind::Pcb { .. }) {
-        num_timelines -= 1;  // in these games, that last entry points to the end of the file
+        // in these games, that last entry points to the end of the file
+        if num_timelines == 0 {
+            return Err(emitter.emit(error!("timeline table has no entry for the end of the file")));
+        }
+        num_timelines -= 1;
     }
 
     let subs = sub_offsets.into_iter().enumerate().map(|(index, sub_offset)| {
